@@ -104,6 +104,7 @@ func Execute(spec RunSpec) (res *Result, reusable bool) {
 	}
 	res.Gen = tape.Gen
 	res.Sched = tape.Sched
+	res.Blocks = tape.Blocks
 	if spec.Keep {
 		var tr []string
 		for _, e := range s.Trace {
